@@ -53,6 +53,8 @@ impl Topic {
             messages,
             responder: send,
         };
+        #[cfg(deltio_verif)]
+        crate::verif::point("topic.send.publish").await;
         self.sender
             .send(request)
             .await
@@ -70,6 +72,8 @@ impl Topic {
             paging,
             responder: send,
         };
+        #[cfg(deltio_verif)]
+        crate::verif::point("topic.send.list").await;
         self.sender
             .send(request)
             .await
@@ -87,6 +91,8 @@ impl Topic {
             subscription,
             responder: send,
         };
+        #[cfg(deltio_verif)]
+        crate::verif::point("topic.send.attach").await;
         self.sender
             .send(request)
             .await
@@ -105,6 +111,8 @@ impl Topic {
             name,
             responder: send,
         };
+        #[cfg(deltio_verif)]
+        crate::verif::point("topic.send.remove").await;
         self.sender
             .send(request)
             .await
@@ -116,6 +124,8 @@ impl Topic {
     pub async fn delete(&self) -> Result<(), DeleteError> {
         let (send, recv) = oneshot::channel();
         let request = TopicRequest::Delete { responder: send };
+        #[cfg(deltio_verif)]
+        crate::verif::point("topic.send.delete").await;
         self.sender
             .send(request)
             .await
